@@ -1,1 +1,2 @@
 import Paroxy.Props.C08
+import Paroxy.Props.C15
